@@ -27,9 +27,9 @@ for p in props:
 m = dict(
     version=1,
     setup_cmd="./setup.sh",
-    hooks=dict(guard="tevec_verif", enable="none needed: extraction reads /repo sources; Kani/witness crates depend on /repo crates by path",
+    hooks=dict(guard="tevec_verif", enable="RUSTFLAGS='--cfg tevec_verif' (set by vlib/kani.py for the Kani harness crate); Verus extraction needs no hook",
                baseline_off_cmd="cd /repo && cargo test --workspace --no-fail-fast --offline",
-               source_commits=[], add_only=True),
+               source_commits=["03221c5"], add_only=True),
     engines=[
         dict(name="verus-units", path="/verif/contracts", serves_properties=sorted(k for k, v in plan.PLAN.items() if v["verus"]["quick"] or v["verus"].get("thorough")),
              kind_free_text="Verus 0.2026.09.13 on functions extracted mechanically from /repo's macro-expanded crates on every run"),
